@@ -55,6 +55,14 @@ def ops():
                 if n is None and not a and not d:
                     continue  # documented precondition: a name, or automatic, or default
                 out.append((f, n, a, d))
+    # the name given on the fly (insert_style(style, name=N)): for an unnamed style and for a style
+    # that already carries another name; the style must end up, and be found, under N
+    for f in ("paragraph", "text", "table-cell", "number", "list", "page-layout", "master-page", "font-face"):
+        for own in (None, "B"):
+            for a in ((False, True) if f in FAMILY_ODF_STD else (False,)):
+                if own is None and f in OTHER and f != "list":
+                    continue
+                out.append((f, own, a, False, "A"))
     return out
 
 
@@ -114,7 +122,8 @@ def find_where(doc, elem):
 
 
 def check_insert(doc, op, marker, cls, fails, hist):
-    f, n, a, d = op
+    f, n, a, d = op[:4]
+    given = op[4] if len(op) > 4 else None
     existing_auto = set()
     for (pname, ln), c in containers(doc).items():
         for e in c:
@@ -129,7 +138,10 @@ def check_insert(doc, op, marker, cls, fails, hist):
                       "replay": {"replay_module": "mc.checks.c13", "history": hist + [list(op)], "oracle": oracle, "expected": exp, "actual": act}})
 
     try:
-        ret = doc.insert_style(style, automatic=a, default=d)
+        if given is not None:
+            ret = doc.insert_style(style, name=given, automatic=a, default=d)
+        else:
+            ret = doc.insert_style(style, automatic=a, default=d)
     except Exception as e:
         rec("raises", "no exception", f"{type(e).__name__}: {e}"[:150], f"raises:{type(e).__name__}")
         return None
@@ -158,7 +170,9 @@ def check_insert(doc, op, marker, cls, fails, hist):
             return style
         if name != el.get("{%s}name" % STYLE_NS):
             rec("returned-name", el.get("{%s}name" % STYLE_NS), name, "returned-name-differs")
-        if n is None:
+        if given is not None and name != given:
+            rec("name-on-the-fly", given, name, "given-name-not-applied")
+        if n is None and given is None:
             # generated automatic name: must be new in its container
             tagfam = (el.tag, el.get("{%s}family" % STYLE_NS))
             clash = [x for x in existing_auto if (x[0], x[1], x[2]) == (tagfam[0], tagfam[1], name)]
@@ -195,8 +209,8 @@ def work(task):
             for op in alls:
                 doc = new_doc(seed)
                 nev += 1
-                f, n, a, d = op
-                cls = f"family={'std' if f in FAMILY_ODF_STD else f},{'named' if n else 'unnamed'},{'automatic' if a else ('default' if d else 'common')}"
+                f, n, a, d = op[:4]
+                cls = f"family={'std' if f in FAMILY_ODF_STD else f},{'named' if n else 'unnamed'},{'automatic' if a else ('default' if d else 'common')}" + (",name-on-the-fly" if len(op) > 4 else "")
                 classes.add(cls)
                 st = check_insert(doc, op, "M1", cls, fails, hist0)
                 if st is not None and not d:
@@ -219,9 +233,9 @@ def work(task):
             break
         nev += 1
         f1 = first
-        f, n, a, d = second
-        same = (f1[0] == f, f1[1] == n)
-        cls = f"second:family={'std' if f in FAMILY_ODF_STD else f},{'named' if n else 'unnamed'},{'automatic' if a else ('default' if d else 'common')},after:{'same-family' if same[0] else 'other-family'}+{'same-name' if same[1] else 'other-name'}+{'automatic' if f1[2] else ('default' if f1[3] else 'common')}"
+        f, n, a, d = second[:4]
+        same = (f1[0] == f, f1[1] == (second[4] if len(second) > 4 else n))
+        cls = f"second:family={'std' if f in FAMILY_ODF_STD else f},{'named' if n else 'unnamed'},{'automatic' if a else ('default' if d else 'common')}{',name-on-the-fly' if len(second) > 4 else ''},after:{'same-family' if same[0] else 'other-family'}+{'same-name' if same[1] else 'other-name'}+{'automatic' if f1[2] else ('default' if f1[3] else 'common')}"
         classes.add(cls)
         pre = len(fails)
         check_insert(doc, first, "M1", "first", fails, hist0)
@@ -494,7 +508,7 @@ def dispatch(t):
 def run(prop, tier, vseed):
     t0 = time.time()
     alls = ops()
-    reps = [o for o in alls if o[0] in ("paragraph", "text", "number", "list", "page-layout", "table-cell") and o[1] in ("A", None, "odfdo_auto_7")]
+    reps = [o for o in alls if o[0] in ("paragraph", "text", "number", "list", "page-layout", "table-cell") and o[1] in ("A", None, "odfdo_auto_7", "B") and (len(o) == 4 and o[1] != "B" or len(o) > 4)]
     if tier == "quick":
         reps = reps[::2]
         docs2 = DOCS[:1]
